@@ -338,6 +338,20 @@ def inline_new_helpers(tree, module_name, functions_of_class):
                         pre = "_%s%d_" % (d.name.strip("_"), _INLINE_SEQ[0])
                         loc = {n.id for s in body for n in ast.walk(s) if isinstance(n, ast.Name)
                                and isinstance(n.ctx, ast.Store)} - set(names)
+                        # `a, b = self.h(..)` with `return x, y` at the end: the helper's x, y ARE a, b
+                        keepname = {}
+                        rets_ = [n for s in body for n in ast.walk(s) if isinstance(n, ast.Return)]
+                        if tgt not in (None, "return", "forward") and len(rets_) == 1 and rets_[0].value is not None:
+                            tv, rv = (tgt.elts if isinstance(tgt, ast.Tuple) else [tgt]), \
+                                (rets_[0].value.elts if isinstance(rets_[0].value, ast.Tuple) else [rets_[0].value])
+                            if len(tv) == len(rv) and all(isinstance(x, ast.Name) for x in list(tv) + list(rv)) \
+                                    and len({x.id for x in rv}) == len(rv) and all(x.id in loc for x in rv):
+                                cand = {r.id: t_.id for r, t_ in zip(rv, tv)}
+                                used_here = {n.id for s in body for n in ast.walk(s) if isinstance(n, ast.Name)}
+                                if not any(t_ in used_here and t_ != r for r, t_ in cand.items()) \
+                                        and not any(t_ in {norm_id for norm_id in (getattr(a_, "id", None) for a_ in call.args)}
+                                                    for t_ in cand.values()):
+                                    keepname = cand
                         if any(isinstance(n, ast.Name) and isinstance(n.ctx, ast.Store) and n.id in mapping
                                for s in body for n in ast.walk(s)):
                             i += 1
@@ -347,7 +361,9 @@ def inline_new_helpers(tree, module_name, functions_of_class):
                             def visit_Name(self, node):
                                 if node.id in mapping and isinstance(node.ctx, ast.Load):
                                     return copy.deepcopy(mapping[node.id])
-                                if node.id in loc:
+                                if node.id in keepname:
+                                    node.id = keepname[node.id]
+                                elif node.id in loc:
                                     node.id = pre + node.id
                                 return node
                         body = [R().visit(s) for s in body]
@@ -357,6 +373,11 @@ def inline_new_helpers(tree, module_name, functions_of_class):
                                 return [ast.Return(value=value)]
                             if tgt == "forward" or tgt is None:
                                 return [ast.Expr(value=value)] if value is not None and not isinstance(value, ast.Constant) else []
+                            if isinstance(tgt, ast.Tuple) and isinstance(value, ast.Tuple) \
+                                    and len(tgt.elts) == len(value.elts) \
+                                    and all(isinstance(a_, ast.Name) and isinstance(b_, ast.Name) and a_.id == b_.id
+                                            for a_, b_ in zip(tgt.elts, value.elts)):
+                                return []          # a, b = (a, b)
                             if isinstance(tgt, ast.Tuple) and isinstance(value, ast.Tuple) \
                                     and len(tgt.elts) == len(value.elts) \
                                     and all(isinstance(x, ast.Name) for x in tgt.elts) \
@@ -372,6 +393,9 @@ def inline_new_helpers(tree, module_name, functions_of_class):
                             # falling off the end returns None
                             if not any(isinstance(s, ast.Return) for s in body):
                                 new.append(ast.Assign(targets=[copy.deepcopy(tgt)], value=ast.Constant(value=None)))
+                        new = [s_ for s_ in new if not (isinstance(s_, ast.Assign) and len(s_.targets) == 1
+                                                       and isinstance(s_.targets[0], ast.Name) and isinstance(s_.value, ast.Name)
+                                                       and s_.targets[0].id == s_.value.id)]
                         new = new or [ast.Pass()]
                         for s_ in new:
                             for n in ast.walk(s_):
